@@ -51,18 +51,14 @@ PBT_PROPERTY(merge_iters) {
     cfg.desc = src.boolean();
     cfg.pair = (int)src.weighted({5, 4, 3, 3, 2, 3, 3, 3});
     cfg.iters = true;
+    cfg.pair = c05::IT_PAIR_OF_TYPE[type][cfg.pair]; // the owning types are instantiated with four of the eight pairs each
     const bool st = c05::entry_stable(cfg.entry);
-    if (cfg.pair < 4) {
-        switch (type) {
-        case 0: st ? c05::run_it_rec8_s(src, cfg) : c05::run_it_rec8_u(src, cfg); break;
-        case 1: st ? c05::run_it_rech_s(src, cfg) : c05::run_it_rech_u(src, cfg); break;
-        default: st ? c05::run_it_recs_s(src, cfg) : c05::run_it_recs_u(src, cfg); break;
-        }
-    } else {
-        switch (type) {
-        case 0: st ? c05::run_it_rec8_s_b(src, cfg) : c05::run_it_rec8_u_b(src, cfg); break;
-        case 1: st ? c05::run_it_rech_s_b(src, cfg) : c05::run_it_rech_u_b(src, cfg); break;
-        default: st ? c05::run_it_recs_s_b(src, cfg) : c05::run_it_recs_u_b(src, cfg); break;
-        }
+    switch (type) {
+    case 0:
+        if (cfg.pair < 4) st ? c05::run_it_rec8_s(src, cfg) : c05::run_it_rec8_u(src, cfg);
+        else st ? c05::run_it_rec8_s_b(src, cfg) : c05::run_it_rec8_u_b(src, cfg);
+        break;
+    case 1: st ? c05::run_it_rech_s(src, cfg) : c05::run_it_rech_u(src, cfg); break;
+    default: st ? c05::run_it_recs_s(src, cfg) : c05::run_it_recs_u(src, cfg); break;
     }
 }
